@@ -1,9 +1,11 @@
 package sx
 
 import (
+	"encoding/json"
 	"fmt"
 	"go/types"
 	"math"
+	"path/filepath"
 	"strings"
 
 	"golang.org/x/tools/go/ssa"
@@ -689,7 +691,50 @@ func builtinIntrinsics() map[string]Intrinsic {
 		return strings.Join(parts, "/")
 	}
 	I["path.Join"], I["path/filepath.Join"] = joinPaths, joinPaths
+	pathFn := func(f func(string) string) Intrinsic {
+		return func(m *Machine, fn *ssa.Function, a []Value) Value {
+			s, ok := concStr(a[0])
+			if !ok {
+				m.unsupported(fn.String() + " of a symbolic path")
+			}
+			return f(s)
+		}
+	}
+	I["path/filepath.Base"], I["path.Base"] = pathFn(filepath.Base), pathFn(filepath.Base)
+	I["path/filepath.Dir"], I["path.Dir"] = pathFn(filepath.Dir), pathFn(filepath.Dir)
+	I["path/filepath.Ext"], I["path.Ext"] = pathFn(filepath.Ext), pathFn(filepath.Ext)
+	I["path/filepath.Clean"], I["path.Clean"] = pathFn(filepath.Clean), pathFn(filepath.Clean)
 	I["encoding/json.Marshal"] = func(m *Machine, fn *ssa.Function, a []Value) Value {
+		// a concrete []string is marshalled for real (part-name manifests); anything else is opaque
+		if iv, ok := a[0].(IfaceV); ok {
+			if sl, ok := iv.V.(SliceV); ok {
+				strs := make([]string, 0, len(sl.A))
+				all := true
+				for _, e := range sl.A {
+					s, isStr := concStr(e)
+					if _, isString := e.(string); !isString {
+						if _, isSym := e.(SymStr); !isSym {
+							all = false
+							break
+						}
+					}
+					if !isStr {
+						all = false
+						break
+					}
+					strs = append(strs, s)
+				}
+				if all {
+					if b, err := json.Marshal(strs); err == nil {
+						out := make([]Value, len(b))
+						for i, c := range b {
+							out[i] = m.ctx.BV(uint64(c), 8)
+						}
+						return TupleV{SliceV{A: out}, IfaceV{}}
+					}
+				}
+			}
+		}
 		return TupleV{SliceV{A: []Value{m.ctx.BV('{', 8), m.ctx.BV('}', 8)}}, IfaceV{}}
 	}
 	I["strconv.Itoa"] = func(m *Machine, fn *ssa.Function, a []Value) Value {
